@@ -382,7 +382,11 @@ func vfStatsRunIcpt(t *testing.T, sc *vfStatsScript, out *vfWriter) {
 		t.Fatalf("VERIF-INFRA factory: %v", err)
 	}
 	var getter Getter
-	fac.OnNewPeerConnection(func(_ string, g Getter) { getter = g })
+	fac.OnNewPeerConnection(func(id string, g Getter) {
+		if id == "verif" { // (the factory also builds the other connection)
+			getter = g
+		}
+	})
 	ici, err := fac.NewInterceptor("verif")
 	if err != nil || getter == nil {
 		t.Fatalf("VERIF-INFRA NewInterceptor: %v getter=%v", err, getter)
@@ -424,6 +428,17 @@ func vfStatsRunIcpt(t *testing.T, sc *vfStatsScript, out *vfWriter) {
 		}
 	}
 
+	// another connection of the same factory carries look-alike traffic on the same SSRCs (other sizes): nothing of it
+	// may show in the statistics of the first one
+	twinI, err := fac.NewInterceptor("twin")
+	if err != nil {
+		t.Fatalf("VERIF-INFRA NewInterceptor (twin): %v", err)
+	}
+	defer func() { _ = twinI.Close() }()
+	var twinRTP []byte
+	twinReaders := map[uint32]interceptor.RTPReader{}
+	twinWriters := map[uint32]interceptor.RTPWriter{}
+
 	var nextRTP []byte
 	rtpWritten := 0
 	readers := map[uint32]interceptor.RTPReader{}
@@ -435,6 +450,13 @@ func vfStatsRunIcpt(t *testing.T, sc *vfStatsScript, out *vfWriter) {
 		switch st.A {
 		case "bind":
 			info := &interceptor.StreamInfo{SSRC: st.S, ClockRate: st.Rate}
+			if st.D == "l" {
+				twinWriters[st.S] = twinI.BindLocalStream(info, interceptor.RTPWriterFunc(
+					func(_ *rtp.Header, p []byte, _ interceptor.Attributes) (int, error) { return len(p), nil }))
+			} else {
+				twinReaders[st.S] = twinI.BindRemoteStream(info, interceptor.RTPReaderFunc(
+					func(b []byte, a interceptor.Attributes) (int, interceptor.Attributes, error) { return copy(b, twinRTP), a, nil }))
+			}
 			if st.D == "l" {
 				writers[st.S] = ic.BindLocalStream(info, interceptor.RTPWriterFunc(
 					func(_ *rtp.Header, p []byte, _ interceptor.Attributes) (int, error) {
@@ -478,6 +500,11 @@ func vfStatsRunIcpt(t *testing.T, sc *vfStatsScript, out *vfWriter) {
 				t.Fatalf("VERIF-INFRA marshal rtp: %v", err)
 			}
 			nextRTP = raw
+			if tr := twinReaders[st.S]; tr != nil && i%2 == 1 { // (the other connection)
+				tp := rtp.Packet{Header: vfStatsHeader(t, st), Payload: make([]byte, st.Pl+33)}
+				twinRTP, _ = tp.Marshal()
+				_, _, _ = tr.Read(make([]byte, 1600), interceptor.Attributes{})
+			}
 			var attr interceptor.Attributes
 			if i%2 == 0 {
 				attr = interceptor.Attributes{}
@@ -489,6 +516,10 @@ func vfStatsRunIcpt(t *testing.T, sc *vfStatsScript, out *vfWriter) {
 			wr := writers[st.S]
 			if wr == nil {
 				t.Fatalf("VERIF-INFRA ortp on a stream without local bind %d", st.S)
+			}
+			if tw := twinWriters[st.S]; tw != nil && i%2 == 1 { // (the other connection)
+				th := vfStatsHeader(t, st)
+				_, _ = tw.Write(&th, make([]byte, st.Pl+33), nil)
 			}
 			h := vfStatsHeader(t, st)
 			before := rtpWritten
